@@ -239,7 +239,9 @@ class C07(Spec):
             "JSON document (authors, recipients, reply parents, media links, attachments, icons and banners embedded; nothing is "
             "fetched), driven with c r a o p b (and the other keys): page, highlighted item (post / actor / activity / error item, "
             "identified by its name), mode and the link the configured media hook RECEIVED (recorded by the hook program) equal "
-            "the model after every key. non-trivial = the sequence opened a second page and moved the cursor.")
+            "the model after every key. HELD LOADS: the fetch behind ':open' / '.' is held by a server that accepts and stays silent while keys, "
+            "Esc, commands and resizes arrive (all dropped: mode stays loading, nothing but resizes redraws), then released: the page lands "
+            "after the page it was started from. non-trivial = the sequence opened a second page and moved the cursor.")
     assumptions = ["the thread/history runs use harness-defined pub.Tangible/pub.Container values; the runs over pub's own types have no "
                    "replies (a reply must be fetched from its parent's id) and their frames, which contain clock- and library-made text, "
                    "are compared by line count only",
@@ -361,6 +363,47 @@ class C07(Spec):
             for _ in range(rng.randint(1, 3)):
                 keys += [ord(rng.choice("12")), 260, 13] + [ord(rng.choice("jk"))] * rng.randint(0, 1)
             ocases.append(ui_case(w, keys, preload=2, width=rng.choice((60, 30)), feeds=feeds))
+        # keys that arrive WHILE A PAGE IS LOADING: the fetch started by ":open" / "." is held by a server that accepts the connection
+        # and stays silent; keys, commands and resizes arrive; then the server hangs up and the (failed) load lands
+        import netgen
+        hbase = netgen.pick_port_base(rng)
+        hcases = []
+        for idx in range(40 if tier == "quick" else 2000):
+            w = thread_world(rng)
+            a, b2 = (idx // 250) % 250, idx % 250 + 1
+            hold_url = "https://127.77.%d.%d:%d/held" % (a, b2, hbase + 9)
+            items, root = w
+            items = list(items)
+            it = list(items[root])
+            it[3] = [hold_url] + list(it[3])
+            items[root] = tuple(it)
+            w = (items, root)
+            if rng.random() < 0.4:
+                keys = [(262, a, b2, hbase + 9), ord("1"), ord(".")]
+            else:
+                keys = [ord(rng.choice("jk ")) for _ in range(rng.randint(0, 3))]
+                if rng.random() < 0.5:
+                    keys += [ord(" "), ord("j")]
+                keys += [(262, a, b2, hbase + 9), ord(":")] + [ord(c) for c in "open " + hold_url] + [13]
+            for _ in range(rng.randint(1, 10)):
+                r = rng.random()
+                if r < 0.35:
+                    keys.append(27)
+                elif r < 0.7:
+                    keys.append(ord(rng.choice("hhljk g:1")))
+                elif r < 0.8:
+                    keys.append(rng.choice((13, 127, 46)))
+                elif r < 0.9:
+                    keys.append((258, rng.choice((60, 20)), rng.choice((20, 5))))
+                else:
+                    keys.append(rng.randrange(256))
+            keys.append(263)
+            keys += [ord(rng.choice("hhhlljk")) for _ in range(rng.randint(2, 6))]
+            hcases.append(ui_case(w, keys, preload=rng.choice((1, 2)), feeds=feeds))
+        hb = Batch("c07-held", hcases, config=cfg + "[network]\ntimeout_seconds = 0\n", env=env, timeout=900,
+                   correspondence="keys while a page load is in flight: ui.State == Ui.update in loading mode, the load lands where it started")
+        hb.parallel = True
+        runner.run_batches(self, scratch, binary, [hb], report)
         oenv = dict(env)
         oenv["VERIF_DUMP_DELAY_MS"] = "250"
         ob = Batch("c07-opening", ocases, config=cfg, env=oenv, timeout=900, correspondence="the Opening state while the media hook runs == Ui.open_externally")
